@@ -3,8 +3,9 @@
 with the patch: the crate builds, the 45 existing tests pass, the demo fails;
 without it: the demo passes. Confirmed mutants are copied to /verif/seeded/<prop>-<k>/."""
 import json, os, re, shutil, subprocess, sys
-SRC = "/tmp/mut/out"
-WT = "/tmp/mut/verify"
+SRC = os.environ.get("SEEDED_SRC", "/tmp/mut/out")
+WT = os.path.join(os.path.dirname(SRC), "verify")
+TAG = os.environ.get("SEEDED_TAG", "")
 def sh(cmd, cwd=None, timeout=1200):
     p = subprocess.run(cmd, shell=True, cwd=cwd, capture_output=True, text=True, timeout=timeout,
                        env=dict(os.environ, CARGO_NET_OFFLINE="true"))
@@ -23,7 +24,7 @@ for prop in sorted(os.listdir(SRC)):
         md = os.path.join(d, m)
         patch, demo = os.path.join(md, "patch.diff"), os.path.join(md, "demo.rs")
         if not (os.path.exists(patch) and os.path.exists(demo)): continue
-        name = "%s-%s" % (prop, m)
+        name = "%s-%s%s" % (prop, TAG, m)
         sh("git reset -q --hard && git clean -fdq -e target", cwd=WT)
         rc, out = sh("git apply %s" % patch, cwd=WT)
         if rc != 0:
@@ -59,4 +60,4 @@ for prop in sorted(os.listdir(SRC)):
                                     "cargo test --offline: 45 existing tests pass, demo test fails",
                                     "patch reverted: cargo test --offline --test demo passes"]
             json.dump(meta, open(os.path.join(dst, "meta.json"), "w"), indent=1)
-json.dump(report, open("/tmp/mut/verify_report.json", "w"), indent=1)
+json.dump(report, open(os.path.join(os.path.dirname(SRC), "verify_report.json"), "w"), indent=1)
